@@ -6,7 +6,7 @@ import re
 
 from ..model import AnalysisError
 from ..symex import Symex, Obj, ClassRef, Func, Raised, _freeze
-from ..terms import T, sym, t_add, t_mul, t_pow, canon, show, args_of, is_num
+from ..terms import T, sym, t_pow, show, args_of, is_num
 from . import skeleton as sk
 from .skeleton import ExprState, EC
 
@@ -19,8 +19,8 @@ EXPLANATION = (
     "evaluated on 1- and 2-index groups over 3 spaces x 3 spins x numbered names: never a swap in both directions, exactly "
     "one direction for different (space, spin, number, letter) keys, none for equal keys, unequal group sizes refused. "
     "R06b (end to end): the constructor each class (AntiSymmetricTensor, Amplitude, SymmetricTensor) resolves to is evaluated "
-    "together with the library's sort key and bra-ket comparison for every index tuple of rank (1,1), (2,2) (thorough: "
-    "(2,1), (3,3) samples) over an index pool and bra-ket symmetry 0/+1/-1: all orderings related by the declared "
+    "together with the library's sort key and bra-ket comparison for every index tuple of rank (1,1) and (2,2) (thorough: "
+    "also (2,1) and (3,3)) over an index pool and bra-ket symmetry 0/+1/-1: all orderings related by the declared "
     "permutational and bra-ket symmetry give the same canonical object with the prescribed relative sign, a repeated "
     "index in an antisymmetric group gives zero and nothing else does, the canonical upper/lower groups are the given "
     "groups (exchanged only under a bra-ket symmetry), so unrelated tuples are never identified. R06c: the constructors "
@@ -32,26 +32,33 @@ EXPLANATION = (
     "container levels by evaluation: Expr content = sum over all terms, Term = product over all objects, Polynom = "
     "(sum over all terms) ** exponent with the arguments forwarded and raw values combined, wrappers carry the "
     "assumptions; Obj level as value tables (t-amplitude names lose the complex-conjugate mark and nothing else changes, "
-    "rename rebuilds the same class with the same index groups and symmetry, rebuilt values keep the exponent). "
+    "rename rebuilds the same class with the same index groups and symmetry, rebuilt values keep the exponent). Calls of "
+    "the next lower level are recorded with all arguments bound to parameter names and with the assumptions of the "
+    "owning expression at the time of the call on which the raw value depends (verified by differential evaluation). "
     "R06f: the Expr assumption state machine (__init__, make_real, set_sym_tensors, set_antisym_tensors) evaluated on "
-    "concrete assumption sets against a reference transition function (real adds fock and eri, symmetry re-applied "
-    "after the sets changed and only then, already declared assumptions leave the state untouched, non-string names "
+    "concrete assumption sets against a reference transition function (real adds fock and eri, the symmetry is applied "
+    "with the complete new declaration after it changed, an already real expression is left untouched, non-string names "
     "refused), the decision table of Obj._apply_tensor_braket_sym (class x declared names x present symmetry) and of "
-    "AntiSymmetricTensor.add_bra_ket_sym (present x requested symmetry).")
+    "AntiSymmetricTensor.add_bra_ket_sym (present x requested symmetry). Contents are compared modulo one law: applying "
+    "the declared symmetry for names S after applying it for a subset of S equals applying it for S.")
 ASSUMPTIONS = [
     "sympy's _sort_anticommuting_fermions sorts by the given key, returns the number of transpositions and raises "
     "ViolationOfPauliPrinciple on two entries with equal keys; sorted() is stable python sorting",
     "orientation (< vs >) of the bra/ket ordering is deliberately not constrained",
     "value preservation under the declared assumptions is not decided (only that exactly the declared names are "
-    "re-canonicalised, once, at every level)",
-    "index tuples are explored up to rank (2,2) (thorough: (3,3) samples) over a pool of 6 (thorough 8) abstract indices",
+    "re-canonicalised with the complete declaration at every level)",
+    "index tuples are explored up to rank (2,2) over a pool of 5-6 abstract indices (thorough: pool of 8, (2,1) and (3,3) samples)",
     "the diagonal of a bra-ket antisymmetric tensor (upper group == lower group, bra_ket_sym=-1) is mathematically zero; "
     "the constructor keeps it as an object - not counted as a forced zero here (reported separately)",
     "bra-ket partners are only required to be identified when the two groups differ in (space, spin, name) of some "
     "index: for two distinct Index objects with the same name, space and spin (possible because Index is a Dummy) "
     "the comparison has no preference and d^{i}_{i'} / d^{i'}_{i} stay distinct (reported separately)",
-    "Expr invariants the reference state machine relies on: `terms` enumerates the summands of the current content, the "
-    "Term/Obj wrappers read the assumptions of the owning Expr at the time of the call",
+    "Expr class invariant used by the reference state machine: the content of an Expr already carries the symmetry of "
+    "its current declaration (established by __init__, kept by the in-place operators), `terms` enumerates the summands "
+    "of the current content, Term/Obj read the assumptions of the owning Expr when they are called; because of the "
+    "invariant re-applying an unchanged declaration is not distinguished from not applying it",
+    "whether a content is a plain number is decided once per path for the original content (images of a number under "
+    "the container methods are that number)",
 ]
 
 SO = "sympy_objects"
@@ -255,7 +262,6 @@ def r06b(ctx):
     rule = "R06b"
     sx = _tensor_sx(ctx, "tensor constructors")
     pool = _pool(ctx.tier)
-    term_of = {id(x): x for x in pool}
     by_term = {_freeze(x): x for x in pool}
     thorough = ctx.tier == "thorough"
     seen = {}
@@ -391,7 +397,7 @@ def _new_scenarios(ctx, cls_name, antisym: bool):
             continue
         foreign = Obj(None, "x")
         foreign.attrs["_classes"] = ("Dummy", "Symbol")
-        up = tuple(U0) if all_index else (U0[0], foreign)
+        up = tuple(U0) if all_index else (foreign, U0[0])      # a non-Index entry sorts in front of every Index
         lo = tuple(L0)
         sorted_u = tuple(reversed(up)) if sign_u else up
         sorted_l = tuple(reversed(lo)) if sign_l else lo
@@ -694,7 +700,7 @@ def _canonical_state(sx, real, sym_tensors, antisym_tensors):
     return st
 
 
-def expr_machine(ctx, only=None):
+def expr_machine(ctx):
     """R06f (and the Expr level of R06e): Expr methods against the reference state machine."""
     fv = sorted(_fv(ctx))
     f_, v_ = fv[0], fv[1]
